@@ -71,7 +71,8 @@ def check_consumer(chk: Check, repo: Repo) -> None:
                     arg = "telegram" if (tg is not None and v == tg) else f"other:{ast.unparse(c.args[0])}"
                 return [Outcome(f"HANDOFF({arg})", None)]
             if n == "self.outgoing_queue.join":
-                return [Outcome("JOIN_OUT", None)]
+                # the wait can be cancelled (a stop() under wait_for while a send is slow)
+                return [Outcome("JOIN_OUT", None), Outcome("JOIN_OUT:cancelled", Raise("CancelledError"))]
             if n == "self.xknx.telegrams.empty":
                 return [Outcome("EMPTY:yes", True), Outcome("EMPTY:no", False)]
             if n == "self.xknx.telegrams.put_nowait":
@@ -102,7 +103,13 @@ def check_consumer(chk: Check, repo: Repo) -> None:
                 # they are never sent nor marked done and join() hangs after stop() returned
                 late = "EMPTY:no" in tr
                 empt = [i for i, t in enumerate(tr) if t.startswith("EMPTY:")]
-                if done != 1:
+                if "JOIN_OUT:cancelled" in tr:
+                    # taken out of the queue, the sentinel counts as unfinished until it is marked done: a cancellation
+                    # that strikes the consumer while it waits must not leave the counter at one (join() / stop() of the
+                    # restarted queue would hang although it is empty)
+                    if done != 1:
+                        problems.append("cancelled while waiting for the outgoing queue: the sentinel it took is never marked done - the counter stays at 1 and join()/stop() hang after a restart")
+                elif done != 1:
                     problems.append("the sentinel is marked done exactly once")
                 elif empt and "JOIN_OUT" not in tr[:empt[0]]:
                     # telegrams still in the outgoing queue are sent, then given to devices and callbacks, which may
